@@ -627,6 +627,8 @@ def base_consts(repo):
         "miden_core::ONE": F(Lin({}, 1)),
         "miden_core::ZERO": F(Lin({}, 0)),
         "ONE": F(Lin({}, 1)),
+        "miden_crypto::ZERO": F(Lin({}, 0)),
+        "miden_crypto::ONE": F(Lin({}, 1)),
         "ZERO": F(Lin({}, 0)),
         "miden_core::code_blocks::Split::DOMAIN": Opaque("Split::DOMAIN"),
         "miden_core::code_blocks::Loop::DOMAIN": Opaque("Loop::DOMAIN"),
